@@ -58,20 +58,27 @@ Print Assumptions C03_clip_factor.
 Print Assumptions C03_unclipped_pass_through.
 Print Assumptions C03_noise_stage.
 Print Assumptions C03_scale_stage.
-(* ghost clipping: the clipped sum reaches p.grad as the gradient of the SECOND loss; on the statement lists generated from
-   DPTensorFastGradientClipping.backward and its adaptive variant that loss is sum_i c_i * loss_i whether the criterion returns its
-   per-sample losses as a vector [B] or as a column [B, 1]; without the re-layout of the coefficients a column is multiplied by
-   (sum of all coefficients), i.e. nothing is clipped per sample *)
-Theorem C03_ghost_second_loss_is_weighted_sum (ll : layout) (c l : list R) :
-  snd (fold_left (shape_step ll c l) ghost_backward_ops (LVec, None)) = Some (rdot c l) /\
-  snd (fold_left (shape_step ll c l) ghost_adaptive_backward_ops (LVec, None)) = Some (rdot c l).
-Proof. exact (second_loss_is_weighted_sum ll c l). Qed.
-Theorem C03_ghost_second_loss_unshaped_refuted : exists c l,
+(* ghost clipping: the clipped sum reaches p.grad as the gradient of the SECOND loss.  On the statement lists generated from
+   DPTensorFastGradientClipping.backward and its adaptive variant that loss is sum_i c_i * loss_i when the criterion returns its per-sample
+   losses as a vector [B].  PARTIAL: for a column [B, 1] the statement is false of the code (recorded finding ghost-column-loss-unclipped):
+   the coefficients (shape [B]) are multiplied with the column without a re-layout, the product is the B x B outer product and the loss is
+   (sum of all coefficients) * (sum of losses) -- C03_ghost_second_loss_column_refuted; any statement list that re-lays the coefficients
+   out before the product computes the weighted sum for both layouts -- C03_ghost_second_loss_shaped *)
+Theorem C03_ghost_second_loss_is_weighted_sum_partial (c l : list R) :
+  snd (fold_left (shape_step LVec c l) ghost_backward_ops (LVec, None)) = Some (rdot c l) /\
+  snd (fold_left (shape_step LVec c l) ghost_adaptive_backward_ops (LVec, None)) = Some (rdot c l).
+Proof. exact (second_loss_is_weighted_sum_vec c l). Qed.
+Theorem C03_ghost_second_loss_column_refuted : exists c l,
   snd (fold_left (shape_step LCol c l) (filter (fun o => match o with GShapeCoef => false | _ => true end) ghost_backward_ops) (LVec, None)) <> Some (rdot c l).
 Proof. exact second_loss_unshaped_refuted. Qed.
+Theorem C03_ghost_second_loss_shaped (ll : layout) (c l : list R) (pre post : list gop) :
+  (forall o, In o pre -> o <> GSecondSum) -> (forall o, In o post -> o <> GSecondSum /\ o <> GClipCoef /\ o <> GShapeCoef) ->
+  snd (fold_left (shape_step ll c l) (pre ++ [GShapeCoef; GSecondLoss; GSecondSum] ++ post) (LVec, None)) = Some (rdot c l).
+Proof. exact (second_loss_is_weighted_sum_shaped ll c l pre post). Qed.
 
 Print Assumptions C03_release_closed_form.
 Print Assumptions C03_zero_noise_big_C_is_vanilla.
 Print Assumptions C03_optimizer_class_table.
-Print Assumptions C03_ghost_second_loss_is_weighted_sum.
-Print Assumptions C03_ghost_second_loss_unshaped_refuted.
+Print Assumptions C03_ghost_second_loss_is_weighted_sum_partial.
+Print Assumptions C03_ghost_second_loss_column_refuted.
+Print Assumptions C03_ghost_second_loss_shaped.
